@@ -947,6 +947,15 @@ example : Linear (callCoefs
                    (.poly [(0, HC.s (It.src 2)), (1, HC.c (2 : Rat))])) (HC.s (It.src 3)))
       (.mul (.poly [(0, HC.s (It.src 4)), (1, HC.c 2)]) (.poly [(0, HC.c 1), (1, HC.s (It.src 5))]))) := by
   decide +kernel
+/-- depth 3, six Streams, a negative power, a key written twice, numerator `((s0 p) (s1 + z^-1)) q` over the
+Stream-gain denominator `(s2 + 2 z^-1 + s3 z^-1) ((1 + s4 z^-1) / s5)` -/
+example : Linear (callCoefs
+    (.mul (.mul (.mul (.poly [((0 : Int), HC.s (It.src 0))]) (.poly [(0, HC.c (1 : Rat)), (1, HC.c 1)]))
+                (.poly [(0, HC.s (It.src 1)), (1, HC.c 1)]))
+          (.poly [(0, HC.c 1), (1, HC.c 2), (-1, HC.c 3)]))
+    (.mul (.poly [(0, HC.s (It.src 2)), (1, HC.c 2), (1, HC.s (It.src 3))])
+          (.divs (.poly [(0, HC.c 1), (1, HC.s (It.src 4))]) (HC.s (It.src 5))))) := by
+  decide +kernel
 /-- the hypothesis is not empty talk: the SAME Stream object stored twice (C06.12e) is not linear -/
 example : ¬ Linear ([HC.s (It.src 0), HC.s (It.src 0)] : List (HC Rat)) := by decide +kernel
 
